@@ -242,6 +242,11 @@ def run(chk):
         chk.violation("C02.eof", fr, "await prepare_meth(request); await resp.write_eof()", "", "server: a response can be reported finished without write_eof()")
     # ---- flushonce ---------------------------------------------------------------------------------------------------------------------------
     flushonce(chk, repo)
+    # a request whose body was not fully sent / response not fully read must not leave the connection reusable on the client while the
+    # server still expects the rest (both ends agree on whether the connection stays open) - shared with C06
+    from rules import C06
+
+    chk.include(C06.run, ("C06.closeonerror",), ("C06.closeonerror", "C02.reuse"))
 
 
 def rxselect(chk, repo, fd, codes, meths):
